@@ -150,6 +150,7 @@ class Sched:
         first.event.set()
         ok = self.done.wait(timeout)
         if not ok:
+            self.stuck = self._describe_stuck()
             self.aborting = True
             self.livelock = True
             for t in self.threads:
@@ -157,6 +158,27 @@ class Sched:
         for t in self.threads:
             t.thread.join(5)
         return ok
+
+    def _describe_stuck(self):
+        """where the thread that holds the turn is, sampled twice a second apart: the same position both times, while
+        every other thread is finished or parked by this scheduler, means it waits for something nobody can provide"""
+        import sys
+        import time
+        import traceback
+
+        cur = self.cur
+
+        def snap():
+            fr = sys._current_frames().get(cur.thread.ident) if cur is not None else None
+            if fr is None:
+                return None
+            return [(f.f_code.co_filename, ln, f.f_code.co_name) for f, ln in traceback.walk_stack(fr)][:8]
+
+        a = snap()
+        time.sleep(1.0)
+        b = snap()
+        return {"thread": cur.idx if cur is not None else None, "same_position": a is not None and a == b,
+                "stack": ["%s:%d %s" % x for x in (a or [])]}
 
     # ---- scheduling points (called by the thread that holds the turn)
     def point(self, tag, coarse=True):
